@@ -58,10 +58,88 @@ theorem plistEq_refl (l : List PConfig) : plistEq l l = true := by
 theorem eq_refl (g : GConfig) : gconfigEq g g = true := by
   cases hk : g.kind <;>
     simp [gconfigEq, hk, groupEq, isInstance, gkindClass, eqBaseClass, classBases, groupEqAttrs, poolEqAttrs, fcgiEqAttrs,
-      gAttrEq, plistEq_refl, fcgiEqDelegatesToGroup, List.lookup]
+      gAttrEq, plistEq_refl, fcgiEqDelegatesToGroup, List.lookup, socketEq, socketEqAttrs, sAttrEq]
 
 theorem ne_self (g : GConfig) : gconfigNe g g = false := by
   simp [gconfigNe, gconfigEqOp, eq_refl]
+
+/-! ### group-level equality, attribute by attribute
+
+  Which attributes ProcessGroupConfig / EventListenerPoolConfig / FastCGIGroupConfig / SocketConfig `__eq__` compare, and
+  how, is regenerated from options.py / datatypes.py (`groupEqAttrs`, `poolEqAttrs`, `fcgiEqAttrs`, `socketEqAttrs`,
+  `eqCompares`, `eqUnrecognised`).  An attribute dropped from a comparison, compared with itself, compared one-sidedly
+  by a hand-written loop, or an extra early return breaks one of the theorems below. -/
+
+/-- every statement of the four group-level `__eq__` methods has a shape the model follows -/
+theorem eq_shape_understood : eqUnrecognised.all (fun c => c.2.isEmpty) = true := by decide
+
+/-- every comparison inside them pairs `self.<attr>` with `other.<attr>` through `==` / `!=` -/
+theorem eq_compares_paired :
+    eqCompares.all (fun c => c.2.all fun t => t.2.2 == "other." ++ t.1 && (t.2.1 == "==" || t.2.1 == "!=")) = true := by decide
+
+/-- `process_configs` lists compare equal exactly when they have the same length and the processes compare equal pairwise
+    (each pair as characterised by `eq_characterised`) -/
+theorem plistEq_iff (l m : List PConfig) :
+    plistEq l m = true ↔ l.length = m.length ∧ ∀ p ∈ l.zip m, pconfigEq p.1 p.2 = true := by
+  induction l generalizing m with
+  | nil => cases m <;> simp [plistEq]
+  | cons a as ih => cases m with
+    | nil => simp [plistEq]
+    | cons b bs => simp [plistEq, ih, and_assoc, and_left_comm]
+
+/-- SocketConfig.__eq__: url, backlog, mode and owner all agree -/
+theorem socket_eq_characterised (a b : GConfig) :
+    socketEq a b = true ↔
+      a.socket = b.socket ∧ a.socket_backlog = b.socket_backlog ∧ a.socket_mode = b.socket_mode ∧ a.socket_owner = b.socket_owner := by
+  simp [socketEq, socketEqAttrs, sAttrEq, and_assoc]
+
+/-- **group_eq_characterised.**  `[group:x]` / `[program:x]` groups: equal exactly when the other side is a
+    ProcessGroupConfig (or subclass) and name, priority and every process agree. -/
+theorem group_eq_characterised (a b : GConfig) (ha : a.kind = .group) :
+    gconfigEq a b = true ↔
+      (b.kind = .group ∨ b.kind = .fcgi) ∧ a.name = b.name ∧ a.priority = b.priority ∧ plistEq a.procs b.procs = true := by
+  cases hb : b.kind <;>
+    simp [gconfigEq, ha, hb, groupEq, isInstance, gkindClass, eqBaseClass, classBases, groupEqAttrs, gAttrEq, List.lookup, and_assoc]
+
+/-- **pool_eq_characterised.**  Event listener pools: equal exactly when the other side is a pool too and name, priority,
+    every process, the buffer size, the subscribed event types and the result handler agree. -/
+theorem pool_eq_characterised (a b : GConfig) (ha : a.kind = .pool) :
+    gconfigEq a b = true ↔
+      b.kind = .pool ∧ a.name = b.name ∧ a.priority = b.priority ∧ plistEq a.procs b.procs = true ∧
+      a.buffer_size = b.buffer_size ∧ a.pool_events = b.pool_events ∧ a.result_handler = b.result_handler := by
+  cases hb : b.kind <;>
+    simp [gconfigEq, ha, hb, isInstance, gkindClass, eqBaseClass, classBases, poolEqAttrs, gAttrEq, List.lookup, and_assoc]
+
+/-- **fcgi_eq_characterised.**  FastCGI groups: equal exactly when the other side is a FastCGI group too, the socket
+    (url, backlog, mode, owner) agrees, and name, priority and every process agree. -/
+theorem fcgi_eq_characterised (a b : GConfig) (ha : a.kind = .fcgi) :
+    gconfigEq a b = true ↔
+      b.kind = .fcgi ∧ (a.socket = b.socket ∧ a.socket_backlog = b.socket_backlog ∧ a.socket_mode = b.socket_mode ∧
+        a.socket_owner = b.socket_owner) ∧ a.name = b.name ∧ a.priority = b.priority ∧ plistEq a.procs b.procs = true := by
+  cases hb : b.kind <;>
+    simp [gconfigEq, ha, hb, groupEq, isInstance, gkindClass, eqBaseClass, classBases, groupEqAttrs, fcgiEqAttrs, gAttrEq,
+      fcgiEqDelegatesToGroup, socket_eq_characterised, List.lookup, and_assoc]
+
+/-- what "nothing of the group's own options differs" means, per kind -/
+def sameGroupOptions (a b : GConfig) : Prop :=
+  a.kind = b.kind ∧ a.name = b.name ∧ a.priority = b.priority ∧ plistEq a.procs b.procs = true ∧
+  (a.kind = .pool → a.buffer_size = b.buffer_size ∧ a.pool_events = b.pool_events ∧ a.result_handler = b.result_handler) ∧
+  (a.kind = .fcgi → a.socket = b.socket ∧ a.socket_backlog = b.socket_backlog ∧ a.socket_mode = b.socket_mode ∧
+    a.socket_owner = b.socket_owner)
+
+/-- **ne_characterised.**  `new != active` (Python's operator, with the subclass priority between ProcessGroupConfig
+    and FastCGIGroupConfig) is False exactly when the two are of the same kind and *no* option differs: every
+    difference in the group's priority, processes, buffer size, event subscriptions, result handler or socket options
+    makes the group "changed". -/
+theorem ne_characterised (a b : GConfig) : gconfigNe a b = false ↔ sameGroupOptions a b := by
+  unfold sameGroupOptions
+  cases ha : a.kind <;> cases hb : b.kind <;>
+    simp [gconfigNe, gconfigEqOp, ha, hb, isInstance, gkindClass, classBases, List.lookup,
+      group_eq_characterised, pool_eq_characterised, fcgi_eq_characterised]
+  -- (mixed kinds are all rejected by the isinstance guards; what remains is fcgi against fcgi, up to the order of the conjuncts)
+  constructor
+  · rintro ⟨⟨h1, h2, h3, h4⟩, h5, h6, h7⟩; exact ⟨h5, h6, h7, h1, h2, h3, h4⟩
+  · rintro ⟨h5, h6, h7, h1, h2, h3, h4⟩; exact ⟨⟨h1, h2, h3, h4⟩, h5, h6, h7⟩
 
 /-! ### diff_to_active -/
 
@@ -92,6 +170,23 @@ theorem diff_exact (new cur : List GConfig) :
       have := ha; simp [diffToActive, List.mem_filter] at this; exact this.2
     obtain ⟨_, c, h2, _⟩ := (hch g).mp hc
     rw [h1] at h2; cases h2
+
+/-- **changed_exact.**  reread lists a group of the file as changed exactly when a group of that name is active and
+    some option of the two differs (`sameGroupOptions` fails). -/
+theorem changed_exact (new cur : List GConfig) (g : GConfig) :
+    g ∈ (diffToActive new cur).changed ↔ g ∈ new ∧ ∃ c, lastNamed cur g.name = some c ∧ ¬ sameGroupOptions g c := by
+  rw [(diff_exact new cur).2.2.1 g]
+  constructor
+  · rintro ⟨hm, c, hl, hne⟩
+    refine ⟨hm, c, hl, ?_⟩
+    intro hs
+    rw [(ne_characterised g c).mpr hs] at hne
+    cases hne
+  · rintro ⟨hm, c, hl, hns⟩
+    refine ⟨hm, c, hl, ?_⟩
+    cases h : gconfigNe g c with
+    | true => rfl
+    | false => exact absurd ((ne_characterised g c).mp h) hns
 
 /-- names found by `lastNamed` are names of the list -/
 theorem lastNamed_some (l : List GConfig) (n : String) (c : GConfig) (h : lastNamed l n = some c) : c ∈ l ∧ c.name = n := by
